@@ -28,12 +28,14 @@ def run_jobs(jobs, workers, timeout_s, scratch):
     PYTHONHASHSEED=job['hashseed']. -> list of reports in job order. Raises HarnessError on timeout/crash."""
     pending = list(enumerate(jobs))
     running = {}
+    slots = list(range(workers))      # one CPU slot per concurrently running job (see worker.py)
     reports = [None] * len(jobs)
     errors = []
     while pending or running:
         while pending and len(running) < workers:
             i, job = pending.pop(0)
             job = dict(job)
+            job['cpu_slot'] = slots.pop(0)
             job['out'] = os.path.join(scratch, 'job-%d-%s.out.json' % (i, os.urandom(3).hex()))
             jf = job['out'].replace('.out.json', '.job.json')
             with open(jf, 'w', encoding='utf-8') as f:
@@ -54,10 +56,12 @@ def run_jobs(jobs, workers, timeout_s, scratch):
                     p.wait()
                     log.close()
                     del running[i]
+                    slots.append(job['cpu_slot'])
                     errors.append('job %d (%s) exceeded its %ds hang guard' % (i, job['kind'], timeout_s))
                 continue
             log.close()
             del running[i]
+            slots.append(job['cpu_slot'])
             if not os.path.exists(job['out']):
                 tail = open(log.name, "rb").read()[-9000:].decode('utf-8', 'replace')
                 errors.append('job %d (%s) exited %s without a report: %s' % (i, job['kind'], rc, tail))
@@ -67,6 +71,7 @@ def run_jobs(jobs, workers, timeout_s, scratch):
             if not rep.get('ok'):
                 errors.append('job %d (%s) failed: %s\n%s' % (i, job['kind'], rep.get('error'), rep.get('traceback', '')[-1500:]))
                 continue
+            rep['job_wall_s'] = round(time.time() - t0, 1)
             reports[i] = rep
             os.remove(job['out'])
         if errors:
